@@ -14,9 +14,19 @@
    model's single-target command (`sendView`). A `P` event (ProcessResponse
    returned) is no step of the model; its `early` flag forbids placing the
    caller's timeout before the lookup of that reply.
+   The hand-over of the answer: `(L c)` = the caller of a late-listener command
+   reaches its receive (`listen c`; every other command listens from the start);
+   `(B c held)` = a goroutine dump found the consumer blocked in the send on c's
+   callback channel: the model must have c's commit over and its answer on offer,
+   not taken; `(B c idle|passed)` = the consumer is past c: the model needs the
+   rendezvous (`take c`) to have happened, i.e. a reported callback. A command is
+   dequeued (`start`) only when no other command of its queue is between dequeue
+   and rendezvous; a callback whose listener reports it later than the next
+   command's first send is taken at that send (receiving and recording are two steps).
    Spec.C12 is evaluated on the same observation, independently of the replay. -/
 import ControlModel.Basic
 import ControlModel.Model.CmdQueue
+import ControlModel.Model.CmdHandover
 import ControlModel.Spec.C12
 
 namespace Driver.C12
@@ -67,6 +77,10 @@ def parseEvent : SExp → Option (Ev × List Nat)
   | .list [.atom "D", c, res] => do
       let (r, errs) ← parseResult res
       pure (.done (← c.nat?) r, errs)
+  | .list [.atom "L", c] => do pure (.listen (← c.nat?), [])
+  | .list [.atom "B", c, .atom "held"] => do pure (.probe (← c.nat?) .held, [])
+  | .list [.atom "B", c, .atom "idle"] => do pure (.probe (← c.nat?) .idle, [])
+  | .list [.atom "B", c, .atom "passed"] => do pure (.probe (← c.nat?) .passed, [])
   | _ => none
 
 def parseFinal : SExp → Option (Nat × Result)
@@ -110,27 +124,100 @@ def want (cmds : List Cmd) (evs : List Ev) (i : Ref) : Option TResp := do
     | _ => none
   entryOf cmd res t
 
-def onSend (cmds : List Cmd) (s : State) (c t : Nat) (ok : Bool) (tmo arg : Nat) : Except String State := do
+/-- The queue each command is enqueued on. -/
+def parseQs (x : SExp) : Option (List Nat) := do
+  let cs ← x.list?
+  cs.mapM? fun
+    | .list (q :: _) => q.nat?
+    | _ => none
+
+/-- Monitor state: the model's state (queue layer on top of the servent/commit
+    layer) plus the commands whose reported callback has been matched. -/
+structure Mon where
+  s : QState
+  reported : List Nat
+
+def baseStep (cmds : List Cmd) (qs : List Nat) (s : QState) (st : Step) : QState :=
+  qstep cmds (queueOf qs) s (.base st)
+
+def settleCallers (cmds : List Cmd) (qs : List Nat) (evs : List Ev) (c : Nat) : List Nat → QState → Except String QState
+  | [], s => pure s
+  | p :: ps, s =>
+    match (s.base.call (c, p)).pc with
+    | .finished _ => settleCallers cmds qs evs c ps s
+    | .waiting =>
+      match want cmds evs (c, p) with
+      | some (.synth _ .timeout) => settleCallers cmds qs evs c ps (baseStep cmds qs s (.timeout (c, p)))
+      | some e => throw s!"implementation reports {showEntry e} for caller ({c},{p}) which per the model is still waiting and can only time out"
+      | none => throw s!"no entry reported for caller ({c},{p})"
+    | _ => throw s!"commit of command {c} over before the send to its target #{p}"
+
+/-- `commit` of the dequeued command `c` returns: every caller still waiting times
+    out (that is what the implementation reports for it), then `complete c`. -/
+def completeStarted (cmds : List Cmd) (qs : List Nat) (evs : List Ev) (s : QState) (c : Nat) : Except String QState := do
+  if s.base.completed c then return s
+  let some cmd := cmds[c]? | throw s!"unknown command {c}"
+  let s ← settleCallers cmds qs evs c (List.range cmd.targets.length) s
+  let s := baseStep cmds qs s (.complete c)
+  if !s.base.completed c then throw s!"command {c} cannot complete in the model"
+  pure s
+
+/-- Another command of the same queue shows activity, so the hand-over of `c0`
+    must be over: the rendezvous took place (the listener's record of it may come
+    later in the trace — receiving and recording are two steps). -/
+def forceTake (cmds : List Cmd) (qs : List Nat) (evs : List Ev) (s : QState) (c0 by_ : Nat) : Except String QState := do
+  if !s.listening c0 then
+    throw s!"command {by_} was dequeued while the answer of command {c0} (same queue) had not been taken: nobody was listening on its callback channel yet, the hand-over must wait"
+  if !evs.any (isDone c0) then
+    throw s!"command {by_} was dequeued although no answer ever arrived on the callback channel of command {c0} (same queue): the hand-over must wait for the caller"
+  let s ← completeStarted cmds qs evs s c0
+  let s := qstep cmds (queueOf qs) s (.take c0)
+  if !s.taken c0 then throw s!"command {by_} was dequeued while the answer of command {c0} (same queue) could not have been taken"
+  pure s
+
+/-- Dequeue `c` (`start c`): the consumer of its queue must be free. -/
+def ensureStarted (cmds : List Cmd) (qs : List Nat) (evs : List Ev) (s : QState) (c : Nat) : Except String QState := do
+  if s.base.started c then return s
+  let mut s := s
+  for c0 in List.range cmds.length do
+    if c0 != c && queueOf qs c0 == queueOf qs c && s.base.started c0 && !s.taken c0 then
+      s ← forceTake cmds qs evs s c0 c
+  -- a command without targets is dequeued without any send: nothing shows its turn but
+  -- its callback, and the listener's record of that may come after the next command's
+  -- first send. Such a command, once its caller listens, has its whole turn here.
+  for c0 in List.range cmds.length do
+    if c0 != c && queueOf qs c0 == queueOf qs c && !s.base.started c0 && !s.taken c0 && s.listening c0 &&
+        evs.any (isDone c0) && (cmds[c0]?.map (·.targets.isEmpty)).getD false then
+      s := baseStep cmds qs s (.start c0)
+      s ← completeStarted cmds qs evs s c0
+      s := qstep cmds (queueOf qs) s (.take c0)
+  let s' := baseStep cmds qs s (.start c)
+  if !s'.base.started c then throw s!"command {c} cannot be dequeued in the model"
+  pure s'
+
+def onSend (cmds : List Cmd) (qs : List Nat) (evs : List Ev) (s : QState) (c t : Nat) (ok : Bool) (tmo arg : Nat) :
+    Except String QState := do
   let some cmd := cmds[c]? | throw s!"send for unknown command {c}"
   let some p := posOf cmd.targets t | throw s!"send of command {c} to {t}, which is not one of its targets"
-  if (s.call (c, p)).pc ≠ .idle then throw s!"second send of command {c} to target {t}"
+  if (s.base.call (c, p)).pc ≠ .idle then throw s!"second send of command {c} to target {t}"
   -- the command object the caller runs with (commit: MakeSingleTarget) is what the send function is handed
   match sendView cmds (c, p) ok with
   | some (.send _ _ _ mtmo marg) =>
     if mtmo ≠ tmo ∨ marg ≠ arg then
       throw s!"send of command {c} to target {t}: handed a command with response timeout {tmo} and arguments {arg}, the model's single-target command has {mtmo} and {marg}"
   | _ => throw s!"no single-target command of command {c} for target {t}"
-  let s := step cmds s (.start c)
-  let s := step cmds s (.register (c, p))
-  pure (step cmds s (if ok then .sendOk (c, p) else .sendFail (c, p)))
+  if s.base.completed c then throw s!"send of command {c} to target {t} after its commit was over"
+  let s ← ensureStarted cmds qs evs s c
+  let s := baseStep cmds qs s (.register (c, p))
+  pure (baseStep cmds qs s (if ok then .sendOk (c, p) else .sendFail (c, p)))
 
-def onResp (cmds : List Cmd) (evs : List Ev) (s : State) (r : Resp) : Except String State :=
-  match s.pending r.key with
+def onResp (cmds : List Cmd) (qs : List Nat) (evs : List Ev) (s : QState) (r : Resp) : Except String QState :=
+  match s.base.pending r.key with
   | none => pure s
   | some i =>
     match want cmds evs i with
     | some (.own r') =>
-      if r' = r then pure (step cmds (step cmds s (.deliver r)) (.recv i))
+      if r' = r then pure (baseStep cmds qs (baseStep cmds qs s (.deliver r)) (.recv i))
       else throw s!"reply tag{r.tag} reaches the pending call ({r.id},{r.sender}) but the implementation reports {showEntry (.own r')} for it"
     | some (.synth _ .timeout) =>
       -- the timeout can have fired before this reply was looked up — unless the reply's
@@ -138,59 +225,81 @@ def onResp (cmds : List Cmd) (evs : List Ev) (s : State) (r : Resp) : Except Str
       -- found the pending call and returned only after handing the reply over
       if evs.contains (.ret r true) then
         throw s!"reply tag{r.tag} was looked up while the call ({r.id},{r.sender}) was pending and before its timeout could fire, but the implementation reports a timeout for it"
-      else pure (step cmds (step cmds s (.timeout i)) (.deliver r))
+      else pure (baseStep cmds qs (baseStep cmds qs s (.timeout i)) (.deliver r))
     | some (.synth _ .send) => throw s!"call ({r.id},{r.sender}) was sent but the implementation reports a send error"
-    | none => pure (step cmds s (.deliver r))
+    | none => pure (baseStep cmds qs s (.deliver r))
 
-def settleCallers (cmds : List Cmd) (evs : List Ev) (c : Nat) : List Nat → State → Except String State
-  | [], s => pure s
-  | p :: ps, s =>
-    match (s.call (c, p)).pc with
-    | .finished _ => settleCallers cmds evs c ps s
-    | .waiting =>
-      match want cmds evs (c, p) with
-      | some (.synth _ .timeout) => settleCallers cmds evs c ps (step cmds s (.timeout (c, p)))
-      | some e => throw s!"implementation reports {showEntry e} for caller ({c},{p}) which per the model is still waiting and can only time out"
-      | none => throw s!"no entry reported for caller ({c},{p})"
-    | _ => throw s!"callback of command {c} before the send to its target #{p}"
-
-def onDone (cmds : List Cmd) (evs : List Ev) (s : State) (c : Nat) (res : Result) (errs : List Nat) :
-    Except String State := do
-  let some cmd := cmds[c]? | throw s!"callback for unknown command {c}"
-  -- a command without targets is dequeued without any send
-  let s := if cmd.targets.isEmpty then step cmds s (.start c) else s
-  let s ← settleCallers cmds evs c (List.range cmd.targets.length) s
-  let before := s.callbacks.length
-  let s := step cmds s (.complete c)
-  if s.callbacks.length = before then
-    throw s!"callback for command {c}, which the model has already answered or never started (exactly-once broken)"
-  match s.callbacks.getLast? with
+def onDone (cmds : List Cmd) (qs : List Nat) (evs : List Ev) (m : Mon) (c : Nat) (res : Result) (errs : List Nat) :
+    Except String Mon := do
+  if c ≥ cmds.length then throw s!"callback for unknown command {c}"
+  if m.reported.contains c then
+    throw s!"callback for command {c}, which the model has already answered (exactly-once broken)"
+  let mut s := m.s
+  if !s.listening c then throw s!"callback of command {c} received although nobody listens to it yet"
+  if !s.taken c then
+    -- a command without targets is dequeued without any send
+    s ← ensureStarted cmds qs evs s c
+    s ← completeStarted cmds qs evs s c
+    s := qstep cmds (queueOf qs) s (.take c)
+    if !s.taken c then throw s!"callback for command {c}, whose answer the model cannot hand over"
+  match s.received.find? (·.1 == c) with
   | some (_, mres) =>
     if canon mres ≠ canon res then
       throw s!"result of command {c}: implementation {showResult (canon res)}, model {showResult (canon mres)}"
     if sortNat (errTargets mres) ≠ sortNat errs then
       throw s!"Errors() of command {c}: implementation {sortNat errs}, model {sortNat (errTargets mres)}"
-    pure s
+    pure { s := s, reported := c :: m.reported }
   | none => throw "no callback"
 
-def monitor (cmds : List Cmd) (all : List (Ev × List Nat)) (final : List (Nat × Result)) : Except String Unit := do
+def showWhere : Where → String
+  | .held => "blocked in the hand-over"
+  | .idle => "idle in its receive on the queue channel"
+  | .passed => "busy with a command enqueued behind it"
+
+/-- The consumer goroutine of `c`'s queue was found there. `held`: `commit` of `c`
+    is over and its answer on offer, not taken. `idle` / `passed`: the loop body
+    of `c` is over, which in the model needs the rendezvous with the caller. -/
+def onProbe (cmds : List Cmd) (qs : List Nat) (evs : List Ev) (s : QState) (c : Nat) (w : Where) : Except String QState := do
+  if c ≥ cmds.length then throw s!"probe of unknown command {c}"
+  match w with
+  | .held =>
+    let s ← ensureStarted cmds qs evs s c
+    let s ← completeStarted cmds qs evs s c
+    if s.taken c then throw s!"consumer found blocked handing over the answer of command {c}, which its caller has already received"
+    pure s
+  | _ =>
+    if !s.taken c then
+      throw s!"the consumer of command {c}'s queue was found {showWhere w} while nothing had arrived on the callback channel of command {c}: the consumer did not wait for the caller (the answer was dropped or left behind); in the model the hand-over waits for the caller, however late it listens"
+    pure s
+
+def monitor (cmds : List Cmd) (qs : List Nat) (all : List (Ev × List Nat)) (final : List (Nat × Result)) : Except String Unit := do
   let evs := all.map (·.1)
-  let mut s := init
+  let late := lateSet evs
+  let mut m : Mon := { s := qinit, reported := [] }
+  -- a caller that does `Enqueue(cmd, notify); <-notify` listens from the start
+  for c in List.range cmds.length do
+    if !late.contains c then m := { m with s := qstep cmds (queueOf qs) m.s (.listen c) }
   for (e, errs) in all do
     match e with
-    | .send c t ok tmo arg => s ← onSend cmds s c t ok tmo arg
-    | .resp r => s ← onResp cmds evs s r
+    | .send c t ok tmo arg => m := { m with s := ← onSend cmds qs evs m.s c t ok tmo arg }
+    | .resp r => m := { m with s := ← onResp cmds qs evs m.s r }
     | .ret r e =>
       -- ProcessResponse returns at once (nothing pending) or after the hand-over: no step of its own
       if !(evs.takeWhile (· != .ret r e)).contains (.resp r) then
         throw s!"ProcessResponse of reply tag{r.tag} returned before it was issued"
-    | .done c res => s ← onDone cmds evs s c res errs
+    | .done c res => m ← onDone cmds qs evs m c res errs
+    | .listen c =>
+      if m.s.listening c then throw s!"second listener for command {c}"
+      m := { m with s := qstep cmds (queueOf qs) m.s (.listen c) }
+    | .probe c w => m := { m with s := ← onProbe cmds qs evs m.s c w }
+  let s := m.s
   for c in List.range cmds.length do
-    if s.completed c = false then throw s!"command {c} never completed"
-  if final.length ≠ s.callbacks.length then
-    throw s!"{final.length} results read at the end, model delivered {s.callbacks.length}"
+    if s.taken c = false then throw s!"command {c} never completed: no answer arrived on its callback channel"
+    if !m.reported.contains c then throw s!"command {c}: its callback was never reported"
+  if final.length ≠ s.received.length then
+    throw s!"{final.length} results read at the end, model delivered {s.received.length}"
   for (c, res) in final do
-    match s.callbacks.find? (·.1 == c) with
+    match s.received.find? (·.1 == c) with
     | some (_, mres) =>
       if canon mres ≠ canon res then
         throw s!"result of command {c} read at the end: {showResult (canon res)}, delivered {showResult (canon mres)}"
@@ -201,20 +310,20 @@ def processLine (line : String) : String :=
   | [inp, impl] =>
     match SExp.parse inp with
     | some (.list [cs, _script]) =>
-      match parseCmds cs with
-      | some cmds =>
+      match parseCmds cs, parseQs cs with
+      | some cmds, some qs =>
         match SExp.parse impl with
         | some (.list [.list evs, .list fin]) =>
           match evs.mapM? parseEvent, fin.mapM? parseFinal with
           | some all, some final =>
-            let model := match monitor cmds all final with
+            let model := match monitor cmds qs all final with
               | .ok _ => "ACCEPT"
               | .error e => "REJECT:" ++ e
-            let spec := Spec cmds (all.map (·.1)) final
+            let spec := Spec cmds qs (all.map (·.1)) final
             s!"{model}\t{if spec then 1 else 0}\t-"
           | _, _ => "REJECT:observation holds something that is neither a scripted reply nor a synthesised error, or a send call that was handed something other than the command restricted to its target\t0\t-"
         | _ => "REJECT:unparseable observation\t0\t-"
-      | none => "BADINPUT\t0\t-"
+      | _, _ => "BADINPUT\t0\t-"
     | _ => "BADINPUT\t0\t-"
   | _ => "BADLINE\t0\t-"
 
